@@ -666,6 +666,29 @@ pub fn plan_c07(tier: &str, seed: u64) -> Plan {
                 muts.push(format!("trunc {cut}"));
             }
         }
+        // several bytes at once: every pair of tag bytes with cancelling differences (xor, additive), random pairs anywhere
+        for a in 0..16 {
+            for b in (a + 1)..16 {
+                muts.push(format!("xor2 {a} {b} 1"));
+                muts.push(format!("xor2 {a} {b} 165"));
+                muts.push(format!("addsub {a} {b} 1"));
+            }
+        }
+        for _ in 0..(if thorough { 2000 } else { 150 }) {
+            let a = rng.below(total);
+            let b = (a + 1 + rng.below(total - 1)) % total;
+            muts.push(format!("xor2 {a} {b} {}", 1 + rng.below(255)));
+        }
+        // whole tags and whole masked seeds replaced by random values: a tag comparison that looks at k bits only
+        // lets one in 2^k through (with the honest seed still recoverable, the result opens - to the same or to another secret)
+        for k in 0..(if thorough { 20000 } else { 500 }) {
+            muts.push(format!("rand_tag {k}"));
+        }
+        for i in 0..n {
+            for k in 0..(if thorough { 8000 } else { 250 }) {
+                muts.push(format!("rand_f {i} {}", k * 7 + i));
+            }
+        }
         muts.push("swap_trap 0 1".into());
         muts.push("drop_trap 0".into());
         muts.push("drop_trap 1".into());
@@ -706,7 +729,7 @@ pub fn plan_c07(tier: &str, seed: u64) -> Plan {
                 c.lines.push(format!("tamper_enc E0 E1 {m}"));
                 c.lines.push("decaps U0 E1".into());
                 c.expect.push((c.lines.len() - 1, ex(&[m.split(' ').next().unwrap()])));
-                if !m.starts_with("flip") || mi % 8 == 0 {
+                if !(m.starts_with("flip") || m.starts_with("xor2") || m.starts_with("addsub") || m.starts_with("rand_")) || mi % 8 == 0 {
                     c.lines.push("decaps U1 E1".into());
                     c.expect.push((c.lines.len() - 1, ex(&[m.split(' ').next().unwrap(), "unauthorized-key"])));
                 }
@@ -719,7 +742,7 @@ pub fn plan_c07(tier: &str, seed: u64) -> Plan {
         per_line: true,
         cases,
         exhaustive: thorough,
-        rule: "serialised encapsulations of four shapes (classic 1 / 3 targets incl. mixed flavours, hybridised 1 / 2 targets): every byte position (all in thorough; the first 120 and every 7th plus 200 random ones in quick for the long hybridised forms) x {bit 0, bit 7}, truncations, and every structural operator (swap / drop / duplicate traps, swap / drop / duplicate components, swap only E or only F, splice a component / the traps / the tag / all components of a second honest encapsulation, flavour flip with re-chunking); each mutant is deserialised and decapsulated by the real code with an authorised and an unauthorised key; the specification demands no secret ever; distinct = distinct (mutant, outcome) lines".into(),
+        rule: "serialised encapsulations of four shapes (classic 1 / 3 targets incl. mixed flavours, hybridised 1 / 2 targets): every byte position (all in thorough; the first 120 and every 7th plus 200 random ones in quick for the long hybridised forms) x {bit 0, bit 7}, truncations, every pair of tag bytes changed with cancelling differences (same xor mask, +1 / -1), random pairs of bytes anywhere, whole tags and whole masked seeds replaced by random values (500 / 250 per component in quick, 20 000 / 8 000 in thorough: a comparison that looks at k bits of the tag lets one in 2^k through), and every structural operator (swap / drop / duplicate traps, swap / drop / duplicate components, swap only E or only F, splice a component / the traps / the tag / all components of a second honest encapsulation, flavour flip with re-chunking); each mutant is deserialised and decapsulated by the real code with an authorised and an unauthorised key; the specification demands no secret ever; distinct = distinct (mutant, outcome) lines".into(),
     }
 }
 
